@@ -2,7 +2,7 @@
 From Coq Require Import ZArith List Bool Reals PArith FMapPositive.
 Import ListNotations.
 From SymfcV Require Import PyPrelude Batch Tuples TableFacts PermModel PermExec IPS SolverModel EigModel GroupAvg.
-From SymfcG Require Import BatchGen Tables.
+From SymfcG Require Import BatchGen Tables LogIndep.
 Open Scope Z_scope.
 
 (** every batch loop of the form [for begin, end in zip( *get_batch_slice(n, b))] visits every item exactly
@@ -66,3 +66,8 @@ Theorem c11_eig_paths_same_space (W F K : IPS) (Fm : F -> W) (Fmt : W -> F) (Km 
   (forall x y, ip (M x) y = ip x (M y)) -> (forall x, (ip x (M x) <= ip x x)%R) ->
   forall v, (M v = v /\ Fmt v = vzero) <-> exists z, v = Km z /\ Kmt (M (Km z)) = z.
 Proof. exact (complement_complete W F K Fm Fmt Km Kmt M). Qed.
+
+(** Log level: every statement of the library guarded by a test on `verbose` / `log_level` is a print (regenerated
+    from all source files on every run), so the log level cannot change a result. *)
+Theorem c11_log_level_in_force : log_level_guards_only_prints = true.
+Proof. reflexivity. Qed.
